@@ -241,6 +241,13 @@ def rand_evaluator(kind, n1, rng, nctrl=12, amp=0.5):
         return xe.KernelEvaluator(kern, ctrl, alpha)
     if kind == "linear":
         return xe.GlobalLinearEvaluator(rng.normal(size=n1) * amp * 0.3)
+    if kind == "subrbf" and n1 >= 2:
+        from ciderpress.models.kernels import SubsetRBF
+        idx = sorted(rng.choice(n1, size=n1 - 1, replace=False).tolist())
+        k = DiffConstantKernel(float(rng.uniform(0.5, 2.0))) * SubsetRBF(idx, ls[idx])
+        return xe.RBFEvaluator(k, ctrl, alpha)  # control points over all features; full-width derivative buffer
+    if kind == "subrbf":
+        return xe.RBFEvaluator(kern, ctrl, alpha)
     if kind == "spinrbf":
         # polarised model: control points carry both spin channels, shape (2, nctrl, n1)
         ctrl2 = rng.uniform(-0.5, 1.0, size=(2, nctrl, n1))
